@@ -35,7 +35,12 @@ func vMergeCfg(prefix, idBase string, nDocs int, second bool, focus string) gCfg
 		if second {
 			fields = append(fields, gField{name: "g", terms: []string{"a"}, allTerm: true, fixFreq: true, store: true})
 		}
-		return gCfg{prefix: prefix, idBase: idBase, nDocs: nDocs, wide: -1, maxAP: 1, symTyp: true, fields: fields}
+		if vParam("always", 0) == 1 {
+			for i := range fields {
+				fields[i].always = true
+			}
+		}
+		return gCfg{prefix: prefix, idBase: idBase, nDocs: nDocs, wide: -1, maxAP: 1, symTyp: true, storeAll: vParam("storeAll", 0) == 1, fields: fields}
 	}
 	fields = []gField{{name: "f", terms: []string{"", "a"}, tv: true, maxLocs: 1, dv: true}}
 	if second {
